@@ -212,8 +212,8 @@ class Monitor:
             self.bad("bin_index", "initial bin %r for kappa %r" % (p["idx_old"], p["kold"]))
         if any(x != 0 for x in p["g"]) or any(x != 0 for x in p["H"]) or len(p["g"]) != self.M or len(p["H"]) != self.M:
             self.bad("initial_histograms", "g=%r H=%r at start" % (p["g"], p["H"]))
-        if not M.close(p["f"], math.e):
-            self.bad("initial_f", "f=%r at start" % (p["f"],))
+        if not (float(p["f"]) > 1.0):
+            self.bad("initial_f", "modification factor f=%r at start (must exceed 1)" % (p["f"],))
         self.g = [0.0] * self.M
         self.H = [0] * self.M
         self.f = float(p["f"])
@@ -413,7 +413,7 @@ def check_files(rep, mon, case, outdir, result, S):
     prev = [0.0] * mon.M
     for k, gl in enumerate(got_g):
         last_h = [h for (itn, _, h) in got_h if itn == k + 1][-1]
-        lnf = 1.0 / (2 ** k)
+        lnf = math.log(mon.f_at_success[k])          # the f in force during iteration k+1, as observed
         for j, i in enumerate(range(mon.a, mon.b)):
             inc = gl[1 + i] - prev[i]
             if abs(inc - lnf * last_h[j]) > 1.1e-4:
